@@ -345,7 +345,7 @@ def _c12(tier, seed):
     runs = ["H_C12_missing()"] + ["H_C12_paths(%d)" % k for k in range(5)]
     for kl, hl, ho in ([(0, 0, 0), (1, 2, 1), (3, 8, 4), (5, 3, 9)] if q else [(a, b, c) for a in range(0, 7) for b in (0, 3, 8) for c in (0, 5, 12)]):
         runs.append("H_C12_codec(%d,%d,%d)" % (kl, hl, ho))
-    runs += ["H_C12_store_load(3,3,1)", "H_C12_store_load(3,3,0)", "H_C12_store_load2(6,5,2,1)", "H_C12_store_load2(1,0,4,6)", "H_C12_truncated(3,3)"]
+    runs += ["H_C12_store_load(3,3,1)", "H_C12_store_load(3,3,0)", "H_C12_store_load2(6,5,2,1)", "H_C12_store_load2(1,0,4,6)", "H_C12_truncated(3,3)", "H_C12_two_loaders(3,3,0)", "H_C12_two_loaders(3,3,1)", "H_C12_two_loaders(3,3,2)", "H_C12_two_loaders(2,5,3)"]
     if not q:
         runs += ["H_C12_store_load(8,10,1)", "H_C12_truncated(9,12)"]
     return [dict(name="files", pkg="internal/session", harness=["harness/session/c12.go"], runs=runs, solver="z3", walllimit=300, timeout=1500,
